@@ -76,13 +76,10 @@ macro_rules! merge_harness {
 }
 merge_harness!(c36_merge_one_file_one_prop, 1, 1, 4);
 
-#[kani::proof]
-#[kani::unwind(7)]
-fn c36_isa_needed_from_command_line_is_ored_in() {
+fn isa_needed_case(has: bool) {
     let isa: u32 = kani::any();
     kani::assume(isa != 0);
     let d: u32 = kani::any();
-    let has: bool = kani::any();
     let st = ObjectLayoutStateExt {
         gnu_property_notes: if has { vec![GnuProperty { ptype: 0xc0008002, data: d }] } else { Vec::new() },
         _p: core::marker::PhantomData,
@@ -94,6 +91,18 @@ fn c36_isa_needed_from_command_line_is_ored_in() {
     };
     assert!(out.len() == 1 && out[0].ptype == 0xc0008002);
     assert!(out[0].data == if has { d | isa } else { isa });
+}
+
+#[kani::proof]
+#[kani::unwind(7)]
+fn c36_isa_needed_from_command_line_is_ored_in() {
+    isa_needed_case(true);
+}
+
+#[kani::proof]
+#[kani::unwind(7)]
+fn c36_isa_needed_from_command_line_alone() {
+    isa_needed_case(false);
 }
 
 #[kani::proof]
